@@ -479,6 +479,22 @@ def chown_tree(path, uid=65534, gid=65534):
             os.lchown(os.path.join(root, n), uid, gid)
 
 
+def _unesc(b):
+    """undo fsshim's escaping of tab / newline / backslash inside paths"""
+    if b"\\" not in b:
+        return b
+    out = bytearray()
+    i = 0
+    while i < len(b):
+        if b[i] == 0x5C and i + 1 < len(b):
+            out.append({0x74: 0x09, 0x6E: 0x0A}.get(b[i + 1], b[i + 1]))
+            i += 2
+        else:
+            out.append(b[i])
+            i += 1
+    return bytes(out)
+
+
 def read_trace(path):
     """fsshim log -> list of dicts"""
     out = []
@@ -491,6 +507,6 @@ def read_trace(path):
             p = line.split(b"\t")
             if len(p) < 7:
                 continue
-            out.append({"seq": int(p[0]), "call": p[1].decode(), "class": p[2].decode(), "raw": p[3], "phys": p[4], "result": int(p[5]), "errno": int(p[6]),
+            out.append({"seq": int(p[0]), "call": p[1].decode(), "class": p[2].decode(), "raw": _unesc(p[3]), "phys": _unesc(p[4]), "result": int(p[5]), "errno": int(p[6]),
                         "tag": p[7].decode() if len(p) > 7 else ""})
     return out
